@@ -159,7 +159,48 @@ pub fn is_own_state_entry(file_name: &std::ffi::OsStr, is_dir: bool) -> bool {
             .strip_prefix('.')
             .and_then(|rest| rest.strip_prefix(BASELINE_FILENAME))
             .and_then(|rest| rest.strip_prefix(".tmp."))
-            .is_some_and(|pid| !pid.is_empty() && pid.bytes().all(|b| b.is_ascii_digit()))
+            .is_some_and(is_temp_suffix)
+}
+
+/// The part of a temp file name after `.tmp.`: `<pid>` (older versions) or `<pid>.<n>`.
+fn is_temp_suffix(suffix: &str) -> bool {
+    let is_number = |part: &str| !part.is_empty() && part.bytes().all(|b| b.is_ascii_digit());
+    match suffix.split_once('.') {
+        Some((pid, n)) => is_number(pid) && is_number(n),
+        None => is_number(suffix),
+    }
+}
+
+/// Create the temporary file of one save in `parent`: `.<file_stem>.tmp.<pid>.<n>`.
+///
+/// The pid alone does not identify a save: two processes in different PID namespaces
+/// (containers sharing a bind-mounted project, each running the tool as pid 1) have the same
+/// pid, and a killed run leaves a file that a later process with the recycled pid would
+/// reuse. The file is therefore created with `create_new`, which fails if the name exists,
+/// and `n` (seeded from the clock) is advanced until a free name is found: no two saves ever
+/// write to the same temp file.
+fn create_temp_file(parent: &Path, file_stem: &str) -> io::Result<(PathBuf, File)> {
+    const MAX_ATTEMPTS: u32 = 1000;
+    let pid = std::process::id();
+    let mut n = std::time::SystemTime::now()
+        .duration_since(std::time::UNIX_EPOCH)
+        .map_or(0, |d| d.subsec_nanos());
+    let mut attempt = 0;
+    loop {
+        let temp_path = parent.join(format!(".{file_stem}.tmp.{pid}.{n}"));
+        match OpenOptions::new()
+            .write(true)
+            .create_new(true)
+            .open(&temp_path)
+        {
+            Ok(file) => return Ok((temp_path, file)),
+            Err(e) if e.kind() == io::ErrorKind::AlreadyExists && attempt < MAX_ATTEMPTS => {
+                attempt += 1;
+                n = n.wrapping_add(1);
+            }
+            Err(e) => return Err(e),
+        }
+    }
 }
 
 // =============================================================================
@@ -501,17 +542,21 @@ pub(crate) fn atomic_write_with_lock_timeout(
     // Generate unique temp filename in same directory (required for atomic rename)
     let parent = path.parent().unwrap_or_else(|| Path::new("."));
     let file_stem = path.file_name().and_then(|n| n.to_str()).unwrap_or("file");
-    let temp_name = format!(".{file_stem}.tmp.{}", std::process::id());
-    let temp_path = parent.join(&temp_name);
+    let (temp_path, temp_file) = create_temp_file(parent, file_stem).map_err(|e| {
+        SlocGuardError::io_with_context(
+            e,
+            parent.join(format!(".{file_stem}.tmp")),
+            "create temp file",
+        )
+    })?;
 
     // RAII guard ensures temp file cleanup on any early return
     let mut temp_guard = TempFileGuard::new(&temp_path);
 
     // Write to temp file first (preserves original on failure)
     {
-        let temp_file = File::create(&temp_path).map_err(|e| {
-            SlocGuardError::io_with_context(e, temp_path.clone(), "create temp file")
-        })?;
+        // closed at the end of this block, before the rename
+        let temp_file = temp_file;
         #[cfg(feature = "verif-hooks")]
         crate::verif_hooks::point("aw:after_create_temp");
         let mut writer = io::BufWriter::new(&temp_file);
